@@ -59,7 +59,7 @@ func c11Gen(tier string, seed int64) []fw.Case {
 		if j > len(all) {
 			j = len(all)
 		}
-		cs = append(cs, fw.Mk(fmt.Sprintf("enum-%d", i/per), c11Params{Cases: all[i:j], Rep: scale(tier, 1, 40)}))
+		cs = append(cs, fw.Mk(fmt.Sprintf("enum-%d", i/per), c11Params{Cases: all[i:j], Rep: scale(tier, 1, 200)}))
 	}
 	return cs
 }
